@@ -32,6 +32,9 @@ type world struct {
 	ids     [][]byte
 	err     error
 	poisons int64
+	// v1 export bundle of the fresh keystore (taken at creation: reading poison keys later may rewrite their files
+	// under another key context, after which the pinned tree cannot export them any more - a C18 matter)
+	bundle *keystore.KeysBackup
 }
 
 var (
@@ -108,7 +111,7 @@ func getWorld() *world {
 			os.Setenv("VERIF_C14_KSDIR", w.dir)
 			create = true
 		}
-		ks, err := ksrig.V1(w.dir, masterKey, keystore.InfiniteCacheSize)
+		ks, err := ksrig.V1(w.dir, append([]byte{}, masterKey...), keystore.InfiniteCacheSize)
 		if err != nil {
 			w.err = err
 			return
@@ -118,6 +121,16 @@ func getWorld() *world {
 			for _, id := range w.ids {
 				if err := ksrig.GenClient(ks, id); err != nil {
 					w.err = err
+					return
+				}
+			}
+			// export bundle of the client keys (before the poison keys exist: the pinned tree cannot always export those)
+			enc, _ := keystore.NewSCellKeyEncryptor(append([]byte{}, masterKey...))
+			if bk, err := filesystem.NewKeyBackuper(w.dir, w.dir, &filesystem.DummyStorage{}, enc, ks); err == nil {
+				if b, err := bk.Export(nil, keystore.ExportAllKeys); err == nil {
+					w.bundle = b
+				} else {
+					w.err = fmt.Errorf("export of the fresh keystore: %w", err)
 					return
 				}
 			}
